@@ -63,8 +63,8 @@ class _Glob:
 
     @staticmethod
     def glob(pattern):
-        if not ("*" in pattern or "?" in pattern):
-            raise LiteralPathGlobbed(pattern)
+        # (a pattern without '*' / '?' reaches glob only if the caller treats '[' as magic; the
+        # stub then answers as the real glob would, and the result is compared with R-fs)
         idx = pattern.rfind("/")
         base, last = pattern[:idx], pattern[idx + 1:]
         if "*" in base or "?" in base:
@@ -129,9 +129,6 @@ class FsHarness:
         if b is None:
             return SKIP
         names, args = b
-        for a in args:
-            if ("[" in a or "]" in a) and ("*" in a or "?" in a):
-                return SKIP  # character classes inside a real glob pattern: outside the stub's contract
         del TREE[:]
         TREE.extend([("/d", "d"), ("/d/" + names[0], "f"), ("/d/" + names[1], "f"), ("/d/s", "d"), ("/d/s/c.md", "f"), ("/d/s/e.txt", "f"), ("/d/s/t", "d"), ("/d/s/t/g.md", "f")])
         recurse = True if v["recurse"] else False
